@@ -15,7 +15,7 @@ META = {
              "[0,1)) x peer pattern {silent from logon, burst then silent, periodic traffic with period 0.5h / h-1.5 / h-1.2 (must survive: a frame at least every h/2 or every gap < h-1.1), "
              "periodic Heartbeats every h + answering, silent but answering every TestRequest after 0 / 0.25h / 0.5h / h / 1.5h / 2h-2.2 s "
              "(those <= 2h-2.1 must survive 12h), wrong / off-by-one / non-numeric / empty TestReqID, Heartbeat without id then right answer, "
-             "answer twice, application send_test_req while one is pending, inbound TestRequests with hostile ids}; plus random mixtures; "
+             "answer twice, application send_test_req while one is pending, inbound TestRequests with hostile ids}; plus random mixtures; plus all interleavings (controlled scheduler, first 7/10 decisions) of two application send_test_req calls, the heartbeat task's TestRequest and a sender; "
              "times are virtual seconds, tick granularity 1 s is explicit slack; distinct = (h, role, phase, pattern, parameters); "
              "non-trivial = scenario in which the watchdog had to act (TestRequest sent)"),
     "assumptions": ["'about one interval' = TestRequest within [h-1, h+1] s after the last inbound frame; 'about three intervals' = disconnected by 3h+2",
@@ -360,6 +360,28 @@ def random_scenario(rnd):
     return (h, role, ph, rnd.choice(["answer-twice", "noid-then-answer", "hb-every-h+answer", "inbound-testreq"]), 0)
 
 
+async def concurrent_test_requests(acc, clock, spec):
+    """At most one TestRequest outstanding under every interleaving of two application send_test_req calls, the heartbeat
+    task's own TestRequest and an application sender (controlled scheduler shared with C14, scenario S7)."""
+    from vf.checks import c14
+    from vf.sim.sched import DFS
+    shard, ns = spec["shard"], spec["nshards"]
+    dfs = DFS(7 if spec["tier"] == "quick" else 10, 400 if spec["tier"] == "quick" else 6000, part=shard, nparts=ns)
+    while (pre := dfs.pop()) is not None:
+        trace, obs = await c14.run_schedule("S7", clock, list(pre))
+        if not dfs.push(pre, trace) or trace is None or "error" in obs:
+            continue
+        cid = "sched:S7:" + ".".join(map(str, pre))
+        acc.case_disjoint(nontrivial=bool(obs.get("overlap")))
+        acc.oracle("one-outstanding")
+        acc.add("one_outstanding_schedules")
+        trs = [b for b in obs["frames"] if fixwire.get(fixwire.parse(b), 35) == "1"]
+        if len(trs) > 1:       # the scripted peer never answers in this scenario: every TestRequest on the tap is outstanding
+            acc.violation("two-testrequests-outstanding", f"{len(trs)} TestRequests written while none was answered :: schedule "
+                          + " ".join(lab for _, _, lab in trace)[:300],
+                          {"schedule": [lab for _, _, lab in trace], "wire": [fixwire.show(b)[:100] for b in obs["frames"]], "results": obs["results"]}, cid)
+
+
 def run_shard(spec, acc):
     from asyncfix.connection import AsyncFIXConnection as C
     from vf.core.reach import Reach
@@ -372,6 +394,9 @@ def run_shard(spec, acc):
     shard, ns = spec["shard"], spec["nshards"]
 
     async def go(clock):
+        oc = acc.only_case
+        if oc is None or oc.startswith("sched:"):
+            await concurrent_test_requests(acc, clock, spec)
         for idx, sc in enumerate(scs):
             if idx % ns != shard:
                 continue
